@@ -7,6 +7,7 @@ import (
 	"math"
 	"os"
 	"path/filepath"
+	"sort"
 	"sync"
 	"sync/atomic"
 	"time"
@@ -869,14 +870,49 @@ func (m *Manager) loadSSTables() error {
 		return fmt.Errorf("failed to read SSTable directory: %w", err)
 	}
 
-	// Loop through all entries
+	// Collect the SSTable files with the level, sequence and timestamp
+	// encoded in their names (level_sequence_timestamp.sst)
+	type sstFile struct {
+		name      string
+		level     int
+		sequence  uint64
+		timestamp int64
+	}
+	var files []sstFile
 	for _, entry := range entries {
 		if entry.IsDir() || filepath.Ext(entry.Name()) != ".sst" {
 			continue // Skip directories and non-SSTable files
 		}
 
+		f := sstFile{name: entry.Name()}
+		fmt.Sscanf(entry.Name(), sstableFilenameFormat, &f.level, &f.sequence, &f.timestamp)
+		files = append(files, f)
+
+		// Continue the file numbering after the existing level-0 files so
+		// that a higher sequence always means a more recent flush
+		if f.level == 0 && f.sequence >= m.nextFileNum {
+			m.nextFileNum = f.sequence + 1
+		}
+	}
+
+	// Reads walk m.sstables from the end (newest) to the start (oldest).
+	// Order the tables by recency: deeper levels hold older data than
+	// shallower ones, and within a level files are ordered by creation time.
+	// (Plain file-name order would rank every level-1 file as newer than all
+	// level-0 files.)
+	sort.SliceStable(files, func(i, j int) bool {
+		if files[i].level != files[j].level {
+			return files[i].level > files[j].level
+		}
+		if files[i].timestamp != files[j].timestamp {
+			return files[i].timestamp < files[j].timestamp
+		}
+		return files[i].sequence < files[j].sequence
+	})
+
+	for _, f := range files {
 		// Open the SSTable
-		path := filepath.Join(m.sstableDir, entry.Name())
+		path := filepath.Join(m.sstableDir, f.name)
 		reader, err := sstable.OpenReader(path)
 		if err != nil {
 			return fmt.Errorf("failed to open SSTable %s: %w", path, err)
